@@ -413,6 +413,11 @@ def run(prog, chk):
     event_translation_tables(prog, chk, "C14.T11")
     poll_failure_not_on_eintr(prog, chk, "C14.T12")
     timer_key_is_execution_time(prog, chk, "C14.T13")
+    # the set of clients whose onClosed is pending is a HashSet (anchored here): a node dropped from its bucket chain while still on
+    # the list makes remove() a silent no-op - the removed client is still called back - or keeps a later client from being queued
+    from .. import containers as _C
+    _C.link_idiom(prog, chk, "C14.T15", ("HashSet",))
+    _C.unlink_idiom(prog, chk, "C14.T16", ("HashSet",))
     from . import c13 as _c13
     _c13.backlog_creation_registers_write(prog, chk, "C14.T14")      # writable-with-backlog is dispatched only if the backlog's creation registered it
 
